@@ -2,7 +2,7 @@
    non-vacuity examples.  (Concrete strings are code-point lists; the text is given next to each.) *)
 From Coq Require Import List NArith ZArith Bool Permutation.
 Import ListNotations.
-Require Import Base.Wire Base.PyStr C02.Model C02.Lemmas.
+Require Import Base.Wire Base.PyStr C02.Model C02.Lemmas C02.Inv.
 Require C03.Model C16.Model C16.Roundtrip C16.Props.
 Open Scope N_scope.
 
@@ -72,36 +72,10 @@ Definition t_chan : str := [99; 104; 97; 110; 110; 101; 108; 32; 99; 97; 112; 97
 Definition h_f1 : list op := [OCmd E_anon t_f1; OReload].
 Definition h_f43 : list op := [OCmd E_adm t_f43; OReload].
 
-Lemma not_owner_in_s0 z : z <> 1%Z -> ~ owner_in z (s_users s0).
-Proof.
-  intros Hz [a [Hin [Ha Ho]]]. simpl in Hin.
-  destruct Hin as [H|[H|[H|[]]]]; subst a; vm_compute in Ha; vm_compute in Ho; congruence.
-Qed.
-
-(* F1: an unregistered user registers the name "x LF capability owner"; after flush+reload account 4 is owner *)
-Lemma reload_refuted_f1 :
-  reloads_in_dom s0 h_f1 = false /\ ~ owners_sub (s_users (run_ops s0 h_f1)) (s_users s0).
-Proof.
-  split; [vm_compute; reflexivity|].
-  intro H. apply (not_owner_in_s0 4%Z); [discriminate|]. apply H.
-  remember (run_ops s0 h_f1) as r eqn:R. vm_compute in R. subst r.
-  eexists. split; [simpl; right; right; right; left; reflexivity|]. split; vm_compute; reflexivity.
-Qed.
-
-(* F43: the admin (not owner) adds the capability " owner" to plain; after flush+reload plain (3) is owner *)
-Lemma reload_refuted_f43 :
-  reloads_in_dom s0 h_f43 = false /\ ~ owners_sub (s_users (run_ops s0 h_f43)) (s_users s0).
-Proof.
-  split; [vm_compute; reflexivity|].
-  intro H. apply (not_owner_in_s0 3%Z); [discriminate|]. apply H.
-  remember (run_ops s0 h_f43) as r eqn:R. vm_compute in R. subst r.
-  eexists. split; [simpl; right; right; left; reflexivity|]. split; vm_compute; reflexivity.
-Qed.
-
-(* every name in both witnesses' pre-reload state: F1 has an unsafe name, F43 has only safe names *)
-Lemma f1_names_unsafe : names_safe (step s0 (OCmd E_anon t_f1)) = false.
+(* the two escalation inputs of the pinned tree (old findings C02.F1, C02.F43) are now refused outright *)
+Example f1_refused : effect_of s0 E_anon t_f1 = ENone.
 Proof. vm_compute. reflexivity. Qed.
-Lemma f43_names_safe : names_safe (step s0 (OCmd E_adm t_f43)) = true.
+Example f43_refused : effect_of s0 E_adm t_f43 = ENone.
 Proof. vm_compute. reflexivity. Qed.
 
 (* ---- non-vacuity ---- *)
@@ -130,6 +104,18 @@ Example ex_chanop_adds : eff_code (effect_of s0 E_adm t_chan) = 1%Z.
 Proof. vm_compute. reflexivity. Qed.
 Example ex_chanop_gated : effect_of s0 E_plain t_chan = ENone.
 Proof. vm_compute. reflexivity. Qed.
-(* the register command of F1 does change the database in memory without creating an owner *)
-Example ex_register_effect : eff_code (effect_of s0 E_anon t_f1) = 3%Z.
+
+(* ---- the invariant-based theorem: non-vacuity ---- *)
+Example ex_wf : wf_state s0 = true.
 Proof. vm_compute. reflexivity. Qed.
+Example ex_history_hosts_ok :
+  reloads_hosts_ok s0 [OCmd E_adm t_foo; OReload; OCmd E_adm t_chan; OReload] = true.
+Proof. vm_compute. reflexivity. Qed.
+(* two accounts with the same name and overlapping hostmasks: outside C16's users_dom (the load stops at the
+   collision), inside the domain of C02_no_new_owner_reload *)
+Definition s_dup : st :=
+  St [Acct (C16.Model.User (Some 1%Z) [98; 111; 115; 115] false false true [104; 124; 57; 56; 46; 49; 49; 50; 46; 49; 49; 57; 46] [[111; 119; 110; 101; 114]] [[98; 111; 115; 115; 33; 111; 64; 104; 111; 115; 116; 46; 111; 119; 110; 101; 114]] [] []) [];
+      Acct (C16.Model.User (Some 3%Z) [112; 108; 97; 105; 110] false false true [104; 124; 49; 49; 50; 46; 49; 49; 50; 46; 49; 49; 57; 46] [] [[112; 108; 97; 105; 110; 33; 112; 64; 104; 111; 115; 116; 46; 112; 108; 97; 105; 110]] [] []) [];
+      Acct (C16.Model.User (Some 4%Z) [112; 108; 97; 105; 110] false false true [104; 124; 49; 49; 50; 46; 49; 49; 57; 46] [[102; 111; 111]] [[42; 33; 42; 64; 104; 111; 115; 116; 46; 112; 108; 97; 105; 110]] [] []) []] 4%Z None [] [].
+Example ex_dup_covered : reload_dom s_dup = false /\ wf_state s_dup = true /\ hosts_dom s_dup = true.
+Proof. vm_compute. auto. Qed.
